@@ -115,3 +115,29 @@ class Rec:
 def dump(path, obj):
     with open(path, "w") as f:
         json.dump(obj, f, indent=1, sort_keys=True, default=str)
+
+
+class OnlyKeys:
+    """View of a Rec through which only the listed mechanisms can be reported: used when one property's check drives the
+    monitors of another property's machinery and must not raise that other property's alarms."""
+
+    def __init__(self, rec, keys, prefix=""):
+        self._rec, self._keys, self._prefix = rec, set(keys), prefix
+
+    def check(self, ok, key, msg, case=None):
+        if key in self._keys:
+            return self._rec.check(ok, key, msg, case)
+        return bool(ok)
+
+    def violation(self, key, msg, case=None):
+        if key in self._keys:
+            self._rec.violation(key, msg, case)
+
+    def count(self, name, n=1):
+        self._rec.count(self._prefix + name, n)
+
+    def inconclusive_because(self, reason):
+        self._rec.inconclusive_because(reason)
+
+    def __getattr__(self, name):
+        return getattr(self._rec, name)
